@@ -1,13 +1,20 @@
 package main
 
+import (
+	"fmt"
+	"time"
+
+	"github.com/xujiajun/nutsdb"
+)
+
 func init() {
 	register(&Check{
 		ID: "C01", Level: "exploration",
 		NCases: func(t string) int { return tier(t, 400, 20000) },
 		Run:    runC01,
 		Rule: "case = (storage configuration, seeded history of Put/PutWithTimestamp/Delete write transactions over 2-3 buckets with reopen points) run against the real DB and the ordered-map-with-TTL model; " +
-			"every Get/GetAll/RangeScan/PrefixScan/PrefixSearchScan result is compared; non-trivial = history had >=2 segment rotations, >=1 tombstone and >=1 expired key inside a compared scan; distinct = distinct hash of configuration+operation sequence",
-		Assumptions: []string{"reference model encodes the documented KV/TTL semantics", "TTL cases are >=10^6 s away from the expiry boundary so no verdict depends on the wall clock", "tmpfs scratch directory behaves like a local file system"},
+			"every Get/GetAll/RangeScan/PrefixScan/PrefixSearchScan result is compared; 1 case in 16 is a large-geometry history (segments of 9-330 KB, >1000 live keys or values of 1-69 KB), 1 in 100 a real-time TTL scenario (expiry by the wall clock across another handle's Close, a Merge, a reopen); non-trivial = history had >=2 segment rotations, >=1 tombstone and >=1 expired key inside a compared scan; distinct = distinct hash of configuration+operation sequence",
+		Assumptions: []string{"reference model encodes the documented KV/TTL semantics", "TTL cases of the generated histories are >=10^6 s away from the expiry boundary so no verdict depends on the wall clock; the real-time scenario (1 case in 100) only asserts that records whose deadline lay 1-2 s ahead are gone after >=4.2 s, which waiting longer cannot falsify", "tmpfs scratch directory behaves like a local file system"},
 		Floor: func(t string, a map[string]int64) string {
 			if a["api_calls_compared"] < 1000 || a["rotations_seen"] == 0 {
 				return "too few compared calls or no rotation"
@@ -19,6 +26,10 @@ func init() {
 
 func runC01(c *CaseCtx) {
 	r := c.Rng
+	if c.Case%100 == 37 {
+		ttlRealTime(c)
+		return
+	}
 	if c.Case%16 == 9 {
 		largeHistory(c, "clean-kv", largeOpts{Kind: "kv", Modes: []int{0, 1}, Merge: c.Case%32 == 9})
 		return
@@ -99,4 +110,133 @@ func firstLines(h []string, n int) []string {
 		return h[:n]
 	}
 	return h
+}
+
+// ttlRealTime is the one scenario whose verdict involves the wall clock, and only in the direction that waiting
+// longer cannot falsify: records whose deadline (timestamp + TTL) lies 1-2 s ahead when they are written must be
+// gone once at least 4 s have passed - in every read API, on the same handle and after a reopen - while persistent
+// records and records with a far deadline must still be there.  In between the handle sees what an application's
+// process sees in that time: another database opened, used and closed, a Merge.  (Nothing is asserted about a record
+// being still alive shortly before its deadline.)
+func ttlRealTime(c *CaseCtx) {
+	r := c.Rng
+	cfg := randCfg(r, []int{0, 1, 2}, 150, 600)
+	class := "ttl-real-time"
+	if cfg.Mode == 2 {
+		class += "-sparse"
+	}
+	dir := c.Dir("db")
+	db, err := openNoPanic(cfg.Options(dir))
+	if err != nil {
+		c.Violate("open-failed:"+errClass(err.Error()), class, "Open failed: "+err.Error())
+		return
+	}
+	defer func() {
+		if db != nil {
+			db.Close()
+		}
+	}()
+	b := "b1"
+	start := time.Now()
+	now := uint64(start.Unix())
+	filler := make([]byte, int(cfg.Seg)/3)
+	for i := range filler {
+		filler[i] = 1
+	}
+	steps := []Op{
+		{K: "Put", B: b, Key: []byte("short"), Val: []byte("s"), TTL: 1},
+		{K: "PutTS", B: b, Key: []byte("stamped"), Val: []byte("t"), TS: now - 100, TTL: 102},
+		{K: "Put", B: b, Key: []byte("keep"), Val: []byte("k")},
+		{K: "Put", B: b, Key: []byte("long"), Val: []byte("l"), TTL: 1000000},
+		{K: "Put", B: b, Key: []byte("f1"), Val: filler}, {K: "Put", B: b, Key: []byte("f2"), Val: filler},
+		{K: "Put", B: b, Key: []byte("f1"), Val: filler}, {K: "Put", B: b, Key: []byte("f2"), Val: filler},
+		{K: "Put", B: b, Key: []byte("f1"), Val: []byte("1")}, {K: "Put", B: b, Key: []byte("f2"), Val: []byte("2")},
+	}
+	for _, o := range steps {
+		c.Log("%s", o.String())
+		if out := execTx(db, TxSpec{Mode: "update", Ops: []Op{o}}); out.Err != nil || out.Panic != "" {
+			c.Violate("commit-error", class, fmt.Sprintf("%s failed: %v %s", o.String(), out.Err, out.Panic))
+			return
+		}
+	}
+	// another database comes and goes in this process
+	if other, oerr := openNoPanic(cfg.Options(c.Dir("other"))); oerr == nil {
+		execTx(other, TxSpec{Mode: "update", Ops: []Op{{K: "Put", B: "o", Key: []byte("x"), Val: []byte("y"), TTL: 1}}})
+		other.Close()
+	}
+	if cfg.Mode != 2 && r.Intn(2) == 0 {
+		func() {
+			defer func() { recover() }()
+			c.Log("merge")
+			if db.Merge() == nil {
+				c.Stat("merges_succeeded", 1)
+			}
+		}()
+	}
+	if r.Intn(2) == 0 {
+		c.Log("reopen before the deadline")
+		db.Close()
+		if db, err = openNoPanic(cfg.Options(dir)); err != nil {
+			c.Violate("open-failed:"+errClass(err.Error()), class, "Open failed: "+err.Error())
+			return
+		}
+	}
+	for time.Since(start) < 4200*time.Millisecond {
+		time.Sleep(100 * time.Millisecond)
+	}
+	want := map[string]string{"short": "", "stamped": "", "keep": "k", "long": "l", "f1": "1", "f2": "2"}
+	check := func(label string) {
+		c.Stat("real_time_expiry_checks", 1)
+		db.View(func(tx *nutsdb.Tx) error {
+			for k, v := range want {
+				e, gerr := tx.Get(b, []byte(k))
+				got := ""
+				if gerr == nil && e != nil {
+					got = string(e.Value)
+				}
+				if got != v {
+					c.Violate("ttl:"+label+":Get", class, fmt.Sprintf("%s (%s, %.1f s after the writes): Get(%q) = %q (err %v), want %q  [short: TTL 1 s; stamped: deadline 2 s after the write; keep: persistent; long: TTL 10^6 s]", label, cfg, time.Since(start).Seconds(), k, got, gerr, v))
+				}
+			}
+			live := map[string]string{}
+			if es, gerr := tx.GetAll(b); gerr == nil {
+				for _, e := range es {
+					live[string(e.Key)] = string(e.Value)
+				}
+			}
+			scan := map[string]string{}
+			if es, _, gerr := tx.PrefixScan(b, []byte(""), 0, 100); gerr == nil {
+				for _, e := range es {
+					scan[string(e.Key)] = string(e.Value)
+				}
+			} else if es, gerr := tx.RangeScan(b, []byte("a"), []byte("z")); gerr == nil {
+				for _, e := range es {
+					scan[string(e.Key)] = string(e.Value)
+				}
+			} else {
+				scan = nil
+			}
+			for name, got := range map[string]map[string]string{"GetAll": live, "scan": scan} {
+				if got == nil {
+					continue
+				}
+				for k, v := range want {
+					if got[k] != v {
+						c.Violate("ttl:"+label+":"+name, class, fmt.Sprintf("%s (%s, %.1f s after the writes): %s has %q = %q, want %q", label, cfg, time.Since(start).Seconds(), name, k, got[k], v))
+					}
+				}
+			}
+			return nil
+		})
+	}
+	check("same-handle")
+	db.Close()
+	if db, err = openNoPanic(cfg.Options(dir)); err != nil {
+		c.Violate("open-failed:"+errClass(err.Error()), class, "Open failed: "+err.Error())
+		db = nil
+		return
+	}
+	check("after-reopen")
+	c.Stat("rotations_seen", int64(countDataFiles(dir)-1))
+	c.Nontrivial(true)
 }
